@@ -4,7 +4,7 @@
 //	upsert <key> [w]     -> ok | err <kind>
 //	remove <key>         -> ok | err notfound
 //	weight <key>         -> <w> | none
-//	next                 -> ok <key> | err noservers | err allzero
+//	next | nextm         -> ok <key> | err noservers | err allzero   (nextm: the caller then rewrites the URL it got)
 //	pnext <callers> <per>-> counts k1=.. k2=.. (sorted) | err ...   (concurrent NextServer calls)
 package main
 
@@ -62,6 +62,16 @@ func (s *h) Op(f []string) string {
 		return fmt.Sprint(w)
 	case "next":
 		return nextStr(s.rr.NextServer())
+	case "nextm":
+		// the caller rewrites the URL it was handed (as a downstream handler may): the pool must not notice
+		uu, err := s.rr.NextServer()
+		out := nextStr(uu, err)
+		if err == nil {
+			uu.Host = "mutated-" + uu.Host
+			uu.Path = "/mutated"
+			uu.Scheme = "https"
+		}
+		return out
 	case "pnext":
 		callers, per := hx.Atoi(f[1]), hx.Atoi(f[2])
 		var mu sync.Mutex
